@@ -575,6 +575,19 @@ SELECTED += [
     ("Specifier.__contains__", "packaging.specifiers", "Specifier.__contains__"),
     ("Specifier._get_operator", "packaging.specifiers", "Specifier._get_operator"),
 ]
+# x7: metadata entry points (C17, C18, C20).  Functions that handle exception *objects* run in `PyX7.MX` (see PyX7.lean)
+SELECTED += [
+    ("InvalidMetadata.__init__", "packaging.metadata", "InvalidMetadata.__init__"),
+    ("_Validator._invalid_metadata", "packaging.metadata", "_Validator._invalid_metadata"),
+    ("Metadata.from_raw", "packaging.metadata", "Metadata.from_raw"),
+    ("Metadata.from_email", "packaging.metadata", "Metadata.from_email"),
+]
+X7_MX_FUNCTIONS = {("packaging.metadata", "Metadata.from_raw"), ("packaging.metadata", "Metadata.from_email")}
+X7_MX = "PyX7.MX"
+# the class whose descriptors (`_Validator` instances in its `__dict__`) the translated attribute access dispatches over
+X7_DESCRIPTOR_CLASS = ("packaging.metadata", "Metadata", "_Validator")
+ORACLE_CALLS["packaging.metadata"] |= {"parse_email"}
+CONSUMERS |= {"ExceptionGroup"}          # copies the sequence into a tuple
 # --- x7 end -----------------------------------------------------------------------------------------------------------
 
 
@@ -773,6 +786,8 @@ class Fn:
                         continue                         # x3: `name[k] = e`, checked in x3_analyse
                     if self.x5_attr_store_ok(n, t) or self.x5_nested_store(n, t):
                         continue                         # x5: `obj.x = e` on a local that holds a fresh object
+                    if self.x7_attr_store_ok(n, t):
+                        continue                         # x7: `exc.__cause__ = e`, `ins._raw = e`
                     for sub in ast.walk(t):
                         if isinstance(sub, (ast.Subscript, ast.Attribute)) and isinstance(sub.ctx, ast.Store):
                             raise Unsupported("assignment to a subscript or attribute")
@@ -1055,6 +1070,7 @@ class Fn:
 
     def translate(self):
         self.x6_prepare()                                     # x6: rewriting pass over the ast
+        self.x7_prepare()                                     # x7: classmethods, exception objects
         self.analyse()
         params = self.params()
         sig = " ".join(lname(p) for p in params)
@@ -1081,6 +1097,9 @@ class Fn:
             self.ctx.state_fns.add(self.lean_name)
             params = [p for p in params if p != self.state_param]
             sig = " ".join(lname(p) for p in params)
+        if getattr(self, "x7_mx", False):                                                      # x7: exception objects
+            monad = X7_MX
+            self.ctx.imports.add(X7_IMPORT)
         if getattr(self, "has_while", False):
             self.ctx.loops.add(self.lean_name)
         if self.lean_name in self.ctx.recursive:                                               # x3: fuel
@@ -1120,6 +1139,8 @@ class Fn:
             self.emit(ind, f"let mut {n} := {rhs}" if rhs_pure else f"let mut {n} ← {rhs}")
 
     def stmt(self, st, ind):
+        if self.x7_stmt(st, ind):                            # x7
+            return
         if self.x3_stmt(st, ind):
             return
         if self.x5_stmt(st, ind):                            # x5
@@ -3893,7 +3914,48 @@ class Fn:
         except Unsupported:
             return None
 
+    def x7_module_const(self, e, kind):
+        """the module-level constant a bare name refers to, when it is of type `kind` and holds only str / int constants"""
+        if isinstance(e, ast.Name) and e.id not in self.locals and e.id not in self.bound_stack():
+            v = self.globals.get(e.id)
+            if isinstance(v, kind):
+                return v
+        return None
+
+    def x7_set_term(self, v):
+        self.ctx.imports.add("PkgModel.PyRx")
+        return '(PyRx.mkSet "frozenset" [' + ", ".join(lconst(x) for x in sorted(v)) + "])"
+
+    def x7_metadata_expr(self, e):
+        if self.pyfunc.__module__ != "packaging.metadata":
+            return None
+        # `frozenset(<dict>) | <module-level frozenset of str>`
+        if isinstance(e, ast.BinOp) and isinstance(e.op, ast.BitOr) and isinstance(e.left, ast.Call) \
+                and isinstance(e.left.func, ast.Name) and e.left.func.id == "frozenset" and len(e.left.args) == 1:
+            c = self.x7_module_const(e.right, (set, frozenset))
+            if c is not None and all(isinstance(x, str) for x in c):
+                self.ctx.imports.add(X7_IMPORT)
+                return False, f"PyX7.set_union_plain (← PyX7.set_of_keys {self.val(e.left.args[0])}) {self.x7_set_term(c)}"
+        # `D[k]` / `k in D` on a module-level dict of str constants
+        if isinstance(e, ast.Subscript) and isinstance(e.ctx, ast.Load) and not isinstance(e.slice, ast.Slice):
+            d = self.x7_module_const(e.value, dict)
+            if d is not None and all(isinstance(k, str) and isinstance(v, str) for k, v in d.items()):
+                self.ctx.imports.add(X7_IMPORT)
+                rows = "[" + ", ".join(f"({lconst(k)}, {lconst(v)})" for k, v in d.items()) + "]"
+                return False, f"PyX7.const_dict_getitem {rows} {self.val(e.slice)}"
+        if isinstance(e, ast.Compare) and len(e.ops) == 1 and isinstance(e.ops[0], (ast.In, ast.NotIn)):
+            d = self.x7_module_const(e.comparators[0], dict)
+            if d is not None and all(isinstance(k, str) for k in d):
+                self.ctx.imports.add(X7_IMPORT)
+                keys = "[" + ", ".join(lconst(k) for k in d) + "]"
+                t = f"PyX7.const_keys_contains {keys} {self.val(e.left)}"
+                return False, (f"(do pure (PyRt.not_ (← {t})))" if isinstance(e.ops[0], ast.NotIn) else t)
+        return None
+
     def x7_expr(self, e):
+        r = self.x7_metadata_expr(e)
+        if r is not None:
+            return r
         # `self._operators[k]`: a class-level dict of constants, current contents inlined (KeyError when absent)
         if isinstance(e, ast.Subscript) and isinstance(e.ctx, ast.Load) and not isinstance(e.slice, ast.Slice):
             rows = self.x7_class_const_dict(e.value)
@@ -3902,7 +3964,80 @@ class Fn:
                 return False, f"PyX7.const_dict_getitem {rows} {self.val(e.slice)}"
         return None
 
+    def x7_metadata_call(self, e, kws):
+        f = e.func
+        cls = getattr(self, "x7_cls", None)
+        # exception constructors: an object of the class with the attributes its own `__init__` sets; the message is not kept
+        c = self.x7_exc_class(e)
+        if c is not None and self.pyfunc.__module__ == "packaging.metadata":
+            self.ctx.imports.add(X7_IMPORT)
+            mp = self.x7_message_params(c)
+            if mp is None:
+                if c.__name__ in ("ExceptionGroup", "BaseExceptionGroup") and len(e.args) == 2 and not kws:
+                    if not self.x7_pure_text(e.args[0]):
+                        raise Unsupported("message of an ExceptionGroup")
+                    return False, f"PyX7.exception_group {self.val(e.args[1])}"
+                if all(self.x7_pure_text(a) for a in e.args) and not kws:
+                    return True, f'(PyVal.obj "{c.__name__}" [])'
+                raise Unsupported(f"constructor of {c.__name__}")
+            init = self.ctx.lookup(c, "__init__")
+            names = list(inspect.signature(init).parameters)[1:]
+            bound = dict(zip(names, e.args))
+            bound.update(kws)
+            args = []
+            for n in names:
+                if n not in bound:
+                    raise Unsupported(f"missing argument {n}")
+                if n in mp:
+                    if not self.x7_pure_text(bound[n]):
+                        raise Unsupported("a message argument that is more than a text")
+                    args.append("PyVal.none")
+                else:
+                    args.append(self.val(bound[n]))
+            fn = self.ctx.require(init)
+            return False, self.call_selected(fn, [f'(PyVal.obj "{c.__name__}" [])'] + args)
+        if isinstance(f, ast.Name) and f.id == "__x7_keys" and len(e.args) == 1:
+            return False, f"PyRt.dict_keys {self.val(e.args[0])}"
+        if cls is not None:
+            if isinstance(f, ast.Name) and f.id == cls and not e.args and not kws:
+                return True, f'(PyVal.obj "{self.x7_owner.__name__}" [])'
+            if isinstance(f, ast.Attribute) and f.attr == "get" and isinstance(f.value, ast.Attribute) and f.value.attr == "__dict__" \
+                    and isinstance(f.value.value, ast.Name) and f.value.value.id == cls and len(e.args) == 1 and not kws:
+                table, _ = self.x7_descriptor_table()
+                self.ctx.imports.add(X7_IMPORT)
+                return False, f"PyX7.class_dict_get {table} {self.val(e.args[0])}"
+            if isinstance(f, ast.Attribute) and isinstance(f.value, ast.Name) and f.value.id == cls:
+                m = inspect.getattr_static(self.x7_owner, f.attr, None)
+                if isinstance(m, classmethod):
+                    fn = self.ctx.require(m.__func__)
+                    if fn in self.ctx.x7_mx and not self.x7_mx:
+                        raise Unsupported("call of a function that raises exception objects from one that does not")
+                    sig = inspect.signature(m.__func__)
+                    args = self.bind_args_named(sig, list(sig.parameters)[1:], list(e.args), kws)
+                    return False, self.call_selected(fn, args)
+        if self.pyfunc.__module__ == "packaging.metadata":
+            # `<module-level list constant>.index(x)`
+            if isinstance(f, ast.Attribute) and f.attr == "index" and len(e.args) == 1 and not kws:
+                l = self.x7_module_const(f.value, list)
+                if l is not None:
+                    self.ctx.imports.add(X7_IMPORT)
+                    return False, f"PyX7.list_index {lconst(l)} {self.val(e.args[0])}"
+            # `sorted(xs, key=str)`
+            if isinstance(f, ast.Name) and f.id == "sorted" and f.id not in self.locals and len(e.args) == 1 and list(kws) == ["key"] \
+                    and isinstance(kws["key"], ast.Name) and kws["key"].id == "str" and "str" not in self.locals:
+                self.ctx.imports.add(X7_IMPORT)
+                return False, f"PyX7.sorted_key_str {self.val(e.args[0])}"
+            # `d.copy()` on a parameter annotated with a dict type
+            if isinstance(f, ast.Attribute) and f.attr == "copy" and not e.args and not kws and isinstance(f.value, ast.Name):
+                for a in self.node.args.args + self.node.args.kwonlyargs:
+                    if a.arg == f.value.id and a.annotation is not None and self.x7_dict_ann(a.annotation):
+                        return False, f"PyRt.dict_copy {self.val(f.value)}"
+        return None
+
     def x7_call(self, e, kws):
+        r = self.x7_metadata_call(e, kws)
+        if r is not None:
+            return r
         f = e.func
         # `getattr(obj, f"<prefix>{…}")` on an instance of a tracked class: a bound method of the class, by name.  Every
         # attribute of the class (and of its tracked subclasses) with that prefix must be a plain function.
@@ -3931,6 +4066,385 @@ class Fn:
             self.ctx.imports.add(X7_IMPORT)
             return False, "PyX7.re_split_class [" + ", ".join(f"({lo}, {hi})" for lo, hi in rs) + f"] {self.val(e.args[0])}"
         return None
+
+    # ---- x7: exception objects, classmethods, the descriptor protocol (metadata.py)
+    def x7_prepare(self):
+        self.x7_mx = self.ctx.x7_is_mx(self.pyfunc)
+        self.x7_cls, self.x7_owner, self.x7_ins, self.x7_dicts = None, self.owner, set(), set()
+        if self.x7_mx:
+            self.ctx.x7_mx.add(self.lean_name)
+        if self.ctx.x7_is_clsmethod(self.pyfunc):
+            self.x7_cls = self.node.args.args[0].arg
+            self.node.args.args = self.node.args.args[1:]
+            self.ctx.x7_clsmethods.add(self.lean_name)
+            self.owner = None                       # the first remaining parameter is not `self`
+            if self.ctx.subclasses(self.x7_owner) or [k for k in self.x7_owner.__subclasses__()]:
+                raise Unsupported("classmethod of a class with subclasses (`cls` is read as the defining class)")
+        if self.x7_cls is None and not self.x7_mx:
+            return
+        cls = self.x7_cls
+        for n in _walk_scope(self.node.body):
+            if isinstance(n, ast.Assign) and len(n.targets) == 1 and isinstance(n.targets[0], ast.Name) \
+                    and isinstance(n.value, ast.Call) and isinstance(n.value.func, ast.Name) and n.value.func.id == cls \
+                    and not n.value.args and not n.value.keywords:
+                self.x7_ins.add(n.targets[0].id)
+        for name in list(self.x7_ins):
+            if sum(1 for n in _walk_scope(self.node.body) if name in _targets_of(n)) != 1:
+                raise Unsupported(f"the instance local {name} is rebound")
+        # `a, b = f(x)` where f is annotated `-> tuple[D1, D2]` with dict types: `for k in b` iterates the keys
+        for n in _walk_scope(self.node.body):
+            if isinstance(n, ast.Assign) and isinstance(n.targets[0], ast.Tuple) and isinstance(n.value, ast.Call) \
+                    and isinstance(n.value.func, ast.Name) and inspect.isfunction(self.globals.get(n.value.func.id)):
+                ret = ast.parse(textwrap.dedent(inspect.getsource(self.globals[n.value.func.id]))).body[0].returns
+                if isinstance(ret, ast.Subscript) and isinstance(ret.value, ast.Name) and ret.value.id == "tuple" \
+                        and isinstance(ret.slice, ast.Tuple) and len(ret.slice.elts) == len(n.targets[0].elts):
+                    for t, a in zip(n.targets[0].elts, ret.slice.elts):
+                        if isinstance(t, ast.Name) and self.x7_dict_ann(a):
+                            self.x7_dicts.add(t.id)
+        fn = self
+
+        class KeysLoop(ast.NodeTransformer):
+            def visit_For(self, node):
+                self.generic_visit(node)
+                if isinstance(node.iter, ast.Name) and node.iter.id in fn.x7_dicts:
+                    node.iter = ast.copy_location(ast.Call(func=ast.Name(id="__x7_keys", ctx=ast.Load()), args=[node.iter], keywords=[]), node.iter)
+                return node
+        self.node = KeysLoop().visit(self.node)
+        ast.fix_missing_locations(self.node)
+
+    def x7_dict_ann(self, a):
+        """an annotation that names a dict type: `dict[...]`, or a TypedDict of the module"""
+        if isinstance(a, ast.Subscript) and isinstance(a.value, ast.Name) and a.value.id == "dict":
+            return True
+        if isinstance(a, ast.Name):
+            v = self.globals.get(a.id)
+            return inspect.isclass(v) and issubclass(v, dict) or getattr(v, "__total__", None) is not None and hasattr(v, "__required_keys__")
+        return False
+
+    def x7_exc_class(self, e):
+        """the exception class a constructor call `C(...)` names (a class of the library or a builtin), else None"""
+        if isinstance(e, ast.Call) and isinstance(e.func, ast.Name) and e.func.id not in self.locals:
+            v = self.globals.get(e.func.id)
+            if v is None:
+                import builtins
+                v = getattr(builtins, e.func.id, None)
+            if inspect.isclass(v) and issubclass(v, BaseException):
+                return v
+        return None
+
+    def x7_message_params(self, c):
+        """parameters of the Python-level `__init__` of exception class c that are only handed to `super().__init__`: the
+        message, which exception objects do not keep; None when c has no Python-level `__init__`"""
+        init = self.ctx.lookup(c, "__init__")
+        if not inspect.isfunction(init):
+            return None
+        node = ast.parse(textwrap.dedent(inspect.getsource(init))).body[0]
+        inside = set()
+        for n in ast.walk(node):
+            if isinstance(n, ast.Call) and isinstance(n.func, ast.Attribute) and n.func.attr == "__init__" \
+                    and isinstance(n.func.value, ast.Call) and isinstance(n.func.value.func, ast.Name) and n.func.value.func.id == "super":
+                inside |= {id(x) for a in n.args for x in ast.walk(a)}
+        out = []
+        for a in node.args.args[1:]:
+            uses = [x for x in ast.walk(node) if isinstance(x, ast.Name) and x.id == a.arg and isinstance(x.ctx, ast.Load)]
+            if uses and all(id(x) in inside for x in uses):
+                out.append(a.arg)
+        return out
+
+    def x7_pure_text(self, e):
+        """an expression that only builds a message text (no effect, cannot raise for str / number operands)"""
+        if isinstance(e, (ast.Constant, ast.Name)):
+            return True
+        if isinstance(e, ast.JoinedStr):
+            return all(isinstance(v, ast.Constant) or (isinstance(v, ast.FormattedValue) and v.format_spec is None and self.x7_pure_text(v.value))
+                       for v in e.values)
+        if isinstance(e, ast.Attribute):
+            return self.x7_pure_text(e.value)
+        if isinstance(e, ast.Call) and isinstance(e.func, ast.Attribute) and e.func.attr == "replace" and not e.keywords:
+            return self.x7_pure_text(e.func.value) and all(self.x7_pure_text(a) for a in e.args)
+        if isinstance(e, ast.Call) and isinstance(e.func, ast.Name) and e.func.id == "repr" and len(e.args) == 1 and not e.keywords:
+            return self.x7_pure_text(e.args[0])
+        return False
+
+    def x7_message_locals(self):
+        """locals that are only ever bound to message texts and only used as the message argument of exception constructors"""
+        if hasattr(self, "_x7_msg_locals"):
+            return self._x7_msg_locals
+        used_as_msg, other_use = set(), set()
+        marked = set()
+        for n in _walk_scope(self.node.body, into_exprs=True):
+            c = self.x7_exc_class(n)
+            if c is not None:
+                mp = self.x7_message_params(c)
+                if mp is not None:
+                    init = self.ctx.lookup(c, "__init__")
+                    names = list(inspect.signature(init).parameters)[1:]
+                    for pn, a in list(zip(names, n.args)) + [(k.arg, k.value) for k in n.keywords]:
+                        if pn in mp and isinstance(a, ast.Name):
+                            used_as_msg.add(a.id)
+                            marked.add(id(a))
+        for n in _walk_scope(self.node.body, into_exprs=True):
+            if isinstance(n, ast.Name) and isinstance(n.ctx, ast.Load) and id(n) not in marked:
+                other_use.add(n.id)
+        out = set()
+        for v in used_as_msg - other_use:
+            binds = [n for n in _walk_scope(self.node.body) if v in _targets_of(n)]
+            if binds and all(isinstance(b, ast.Assign) and len(b.targets) == 1 and isinstance(b.targets[0], ast.Name)
+                             and self.x7_pure_text(b.value) for b in binds) and v not in self.params():
+                out.add(v)
+        self._x7_msg_locals = out
+        return out
+
+    def x7_attr_store_ok(self, n, t):
+        if not isinstance(t, ast.Attribute) or not isinstance(t.value, ast.Name):
+            return False
+        if t.attr == "__cause__":
+            return True
+        return t.value.id in getattr(self, "x7_ins", set())
+
+    def x7_descriptor_table(self):
+        """the descriptor objects in the class dict of the classmethod's class, as Lean rows `(name, object)`"""
+        mod, cname, dname = X7_DESCRIPTOR_CLASS
+        c = self.x7_owner
+        if c is None or c.__module__ != mod or c.__name__ != cname:
+            raise Unsupported("descriptor access on a class the translator has no table for")
+        D = getattr(importlib.import_module(mod), dname)
+        fields = ["name", "raw_name", "added"]
+        rows = []
+        for k, v in vars(c).items():
+            if isinstance(v, D):
+                if sorted(vars(v)) != sorted(fields):
+                    raise Unsupported(f"descriptor {k} has other attributes than {fields}")
+                obj = f'(PyVal.obj "{dname}" [' + ", ".join(f'("{f}", {lconst(getattr(v, f))})' for f in fields) + "])"
+                rows.append(f"({lstr(k)}, {obj})")
+        tname = f"{cname}.__descriptors"
+        if tname not in self.ctx.dispatchers:
+            self.ctx.dispatchers[tname] = (f"def {tname} : List (Py.Str × PyVal) :=\n  [" + ",\n   ".join(rows) + "]")
+            self.ctx.dispatcher_deps[tname] = set()
+        self.ctx.deps.setdefault(self.ctx.current, set()).add(tname)
+        return tname, D
+
+    def x7_getattr_dispatcher(self):
+        """generated definition: `getattr(ins, key)` on an instance of the descriptor class — instance dict first (the
+        descriptors define `__get__` only), then the descriptor of that name through the translated `__get__`; an
+        `InvalidMetadata` it raises (a class name, raised by `raise self._invalid_metadata(…)` — checked here) is re-raised
+        as the object the translated `_invalid_metadata` builds.  Hands back `(value, instance afterwards)`."""
+        table, D = self.x7_descriptor_table()
+        cname = self.x7_owner.__name__
+        name = f"{cname}.__getattr__dyn"
+        if name not in self.ctx.dispatchers:
+            get = inspect.getattr_static(D, "__get__", None)
+            helper = inspect.getattr_static(D, "_invalid_metadata", None)
+            if not inspect.isfunction(get) or not inspect.isfunction(helper) or hasattr(D, "__set__") or hasattr(D, "__delete__"):
+                raise Unsupported("the descriptor class is not a non-data descriptor with a Python-level __get__")
+            hret = ast.parse(textwrap.dedent(inspect.getsource(helper))).body[0].returns
+            ecls = helper.__globals__.get(hret.id) if isinstance(hret, ast.Name) else None
+            if not (inspect.isclass(ecls) and issubclass(ecls, BaseException)):
+                raise Unsupported("_invalid_metadata is not annotated with an exception class")
+            # every `raise` in the methods of the descriptor class must be `raise self._invalid_metadata(...)`, and nothing
+            # else may construct that exception class there
+            for mn, m in vars(D).items():
+                if not inspect.isfunction(m):
+                    continue
+                mnode = ast.parse(textwrap.dedent(inspect.getsource(m))).body[0]
+                me = mnode.args.args[0].arg if mnode.args.args else None
+                for r in ast.walk(mnode):
+                    if isinstance(r, ast.Raise) and r.exc is not None:
+                        x = r.exc
+                        ok = isinstance(x, ast.Call) and isinstance(x.func, ast.Attribute) and x.func.attr == "_invalid_metadata" \
+                            and isinstance(x.func.value, ast.Name) and x.func.value.id == me
+                        if not ok:
+                            raise Unsupported(f"{D.__name__}.{mn} raises other than through self._invalid_metadata")
+                    if isinstance(r, ast.Call) and isinstance(r.func, ast.Name) and r.func.id == ecls.__name__ and mn != "_invalid_metadata":
+                        raise Unsupported(f"{D.__name__}.{mn} constructs {ecls.__name__} itself")
+            gfn = self.ctx.require(get)
+            hfn = self.ctx.require(helper)
+            ext = " ext" if gfn in self.ctx.uses_ext else ""
+            self.ctx.imports.add(X7_IMPORT)
+            body = (f"def {name} (ext : PyRt.Oracle) (ins key : PyVal) : PyX7.MX PyVal := do\n"
+                    f"  let __hit ← PyX7.inst_lookup ins key\n"
+                    f"  if !(PyRt.isNone __hit) then\n"
+                    f"    return (PyVal.tuple [(← PyRt.getitem __hit (PyVal.int 0)), ins])\n"
+                    f"  let __d ← PyX7.class_dict_get {table} key\n"
+                    f'  if !(PyRt.isinstance __d ["{D.__name__}"]) then\n'
+                    f'    throw (PyX7.Exc.cls "PyRtUnsupported")\n'
+                    f"  match {gfn}{ext} __d ins (PyVal.obj \"type\" []) with\n"
+                    f"  | .ok r => return r\n"
+                    f'  | .error c => if c == "{ecls.__name__}" then PyX7.raise_obj (← {hfn} __d (PyVal.str []) PyVal.none) else throw (PyX7.Exc.cls c)')
+            self.ctx.dispatchers[name] = body
+            self.ctx.dispatcher_deps[name] = {gfn, hfn, table}
+            self.ctx.uses_ext.add(name)
+        self.ctx.deps.setdefault(self.ctx.current, set()).add(name)
+        self.use_ext()
+        return name
+
+    def x7_descr_read(self, target, key_term, ind):
+        """`target = getattr(ins, key)` (target None: the value is dropped); rebinds the instance local"""
+        ins = next(iter(self.x7_ins))
+        d = self.x7_getattr_dispatcher()
+        t = self.fresh("ga")
+        self.emit(ind, f"let {t} ← {d} ext {lname(ins)} {key_term}")
+        if target is not None:
+            self.assign_name(target, False, f"PyRt.getitem {t} (PyVal.int 0)", ind)
+        self.emit(ind, f"{lname(ins)} ← PyRt.getitem {t} (PyVal.int 1)")
+
+    def x7_is_descr_attr(self, e):
+        if isinstance(e, ast.Attribute) and isinstance(e.value, ast.Name) and e.value.id in getattr(self, "x7_ins", set()) \
+                and isinstance(e.ctx, ast.Load) and self.x7_owner is not None:
+            mod, cname, dname = X7_DESCRIPTOR_CLASS
+            D = getattr(importlib.import_module(mod), dname, None)
+            return D is not None and isinstance(inspect.getattr_static(self.x7_owner, e.attr, None), D)
+        return False
+
+    def x7_stmt(self, st, ind):
+        # `super().__init__(message)` in the `__init__` of an exception class: the message is not kept
+        if isinstance(st, ast.Expr) and isinstance(st.value, ast.Call) and isinstance(st.value.func, ast.Attribute) \
+                and st.value.func.attr == "__init__" and isinstance(st.value.func.value, ast.Call) \
+                and isinstance(st.value.func.value.func, ast.Name) and st.value.func.value.func.id == "super" \
+                and self.owner is not None and issubclass(self.owner, BaseException) and self.node.name == "__init__":
+            if not all(isinstance(a, ast.Name) for a in st.value.args) or st.value.keywords:
+                raise Unsupported("super().__init__ with other than plain names")
+            self.emit(ind, "pure ()")
+            return True
+        if isinstance(st, ast.Assign) and len(st.targets) == 1 and isinstance(st.targets[0], ast.Attribute) \
+                and isinstance(st.targets[0].value, ast.Name):
+            t = st.targets[0]
+            if t.attr == "__cause__":                     # not kept
+                if not isinstance(st.value, (ast.Name, ast.Constant)):
+                    raise Unsupported("__cause__ bound to other than a name")
+                self.emit(ind, "pure ()")
+                return True
+            if t.value.id in getattr(self, "x7_ins", set()):
+                me = lname(t.value.id)
+                self.emit(ind, f'{me} ← PyRt.setattr {me} "{t.attr}" {self.val(st.value)}')
+                return True
+        if not getattr(self, "x7_mx", False) and getattr(self, "x7_cls", None) is None:
+            return False
+        # a message text that only ever reaches the message parameter of exception constructors
+        if isinstance(st, ast.Assign) and len(st.targets) == 1 and isinstance(st.targets[0], ast.Name) \
+                and st.targets[0].id in self.x7_message_locals():
+            self.emit(ind, "pure ()")
+            return True
+        # descriptor reads
+        if isinstance(st, ast.Assign) and len(st.targets) == 1 and isinstance(st.targets[0], ast.Name) and self.x7_is_descr_attr(st.value):
+            self.x7_descr_read(st.targets[0].id, f"(PyVal.str {lstr(st.value.attr)})", ind)
+            return True
+        if isinstance(st, ast.Expr) and isinstance(st.value, ast.Call) and isinstance(st.value.func, ast.Name) \
+                and st.value.func.id == "getattr" and len(st.value.args) == 2 and not st.value.keywords \
+                and isinstance(st.value.args[0], ast.Name) and st.value.args[0].id in self.x7_ins:
+            self.x7_descr_read(None, self.val(st.value.args[1]), ind)
+            return True
+        # `s -= {constants}` on a set of plain values
+        if isinstance(st, ast.AugAssign) and isinstance(st.op, ast.Sub) and isinstance(st.target, ast.Name) and isinstance(st.value, ast.Set) \
+                and all(isinstance(x, ast.Constant) and isinstance(x.value, str) for x in st.value.elts):
+            self.ctx.imports.add(X7_IMPORT)
+            self.ctx.imports.add("PkgModel.PyRx")
+            members = ", ".join(lconst(x.value) for x in st.value.elts)
+            n = lname(st.target.id)
+            self.emit(ind, f'{n} ← PyX7.set_diff_plain {n} (PyRx.mkSet "set" [{members}])')
+            return True
+        if not self.x7_mx:
+            return False
+        if isinstance(st, ast.Raise):
+            if st.exc is None:
+                raise Unsupported("bare raise")
+            self.emit(ind, f"PyX7.raise_obj {self.val(st.exc)}")
+            return True
+        if isinstance(st, ast.Assert):
+            self.emit(ind, f'if !({self.cond(st.test)}) then throw (PyX7.Exc.cls "AssertionError")')
+            return True
+        if isinstance(st, ast.Try):
+            if st.finalbody:
+                raise Unsupported("try/finally")
+            self.x7_try_check(st)
+            flag = None
+            if st.orelse:
+                flag = self.fresh("else")
+                self.emit(ind, f"let mut {flag} := false")
+            self.emit(ind, "try")
+            saved = set(self.declared)
+            self.block(st.body, ind + 1)
+            if flag is not None and _falls_through(st.body):
+                self.emit(ind + 1, f"{flag} := true")
+            self.declared = set(saved)
+            e = self.fresh("e")
+            self.emit(ind, f"catch {e} =>")
+            first = True
+            for h in st.handlers:
+                classes = self.handler_classes(h.type)
+                test = " || ".join(f'PyX7.catchesX "{c}" {e}' for c in classes)
+                self.emit(ind + 1, ("if " if first else "else if ") + test + " then")
+                first = False
+                if h.name is not None:
+                    self.locals.add(h.name)
+                    if h.name in self.declared:
+                        self.emit(ind + 2, f"{lname(h.name)} := PyX7.excValue {e}")
+                    else:
+                        self.emit(ind + 2, f"let {lname(h.name)} := PyX7.excValue {e}")
+                    self._x7_handler_names = getattr(self, "_x7_handler_names", set()) | {h.name}
+                self.block(h.body, ind + 2)
+                self.declared = set(saved)
+            self.emit(ind + 1, f"else throw {e}")
+            if flag is not None:
+                self.emit(ind, f"if {flag} then")
+                self.block(st.orelse, ind + 1)
+                self.declared = set(saved) | (self.declared & set(self.hoisted))
+            return True
+        return False
+
+    def x7_try_check(self, st):
+        """Lean's `try … catch` hands the handlers the locals of the `try` start; Python keeps what the body did before it
+        raised.  Accepted: a body in which every statement that can raise a *caught* class comes after nothing that changed a
+        local read on a handler path.  Concretely: names changed before the last statement must either not be read on a
+        handler path, or be (a) the instance local rebound by a descriptor read (the read leaves the instance alone when it
+        raises) followed only by `<constant list>.index(…)` bindings (`ValueError`, which no handler may catch then), or
+        (b) an owned list appended to directly before a `continue`."""
+        caught = {c for h in st.handlers for c in self.handler_classes(h.type)}
+        body = list(st.body)
+
+        def loads(nodes):
+            return {x.id for b in nodes for x in ast.walk(b) if isinstance(x, ast.Name) and isinstance(x.ctx, ast.Load)}
+        seen = set()
+        for h in st.handlers:
+            seen |= loads(h.body)
+            if _falls_through(h.body):
+                seen |= loads([n for n in _walk_scope(self.node.body) if getattr(n, "lineno", 0) > st.end_lineno and isinstance(n, ast.stmt)])
+        # statements of the body, flattened in order, with what they change
+        flat = [n for n in _walk_scope(body) if isinstance(n, ast.stmt)]
+        may_raise_caught_after = set()
+        changed_before_last = set()
+        last = flat[-1] if flat else None
+        for n in flat:
+            if n is last:
+                continue
+            if isinstance(n, ast.Assign) and len(n.targets) == 1 and isinstance(n.targets[0], ast.Name) and self.x7_is_descr_attr(n.value):
+                rest = flat[flat.index(n) + 1:]
+                if all(isinstance(r, ast.Assign) and isinstance(r.value, ast.Call) and isinstance(r.value.func, ast.Attribute)
+                       and r.value.func.attr == "index" and isinstance(r.value.func.value, ast.Name)
+                       and isinstance(self.globals.get(r.value.func.value.id), list) for r in rest) \
+                        and not ({"ValueError", "Exception", "BaseException"} & caught):
+                    continue
+                raise Unsupported("a descriptor read inside a try body is followed by statements that may raise a caught class")
+            if isinstance(n, (ast.If, ast.Continue, ast.Break, ast.Pass)):
+                continue
+            if isinstance(n, ast.Expr) and isinstance(n.value, ast.Call) and isinstance(n.value.func, ast.Attribute) \
+                    and n.value.func.attr == "append" and isinstance(n.value.func.value, ast.Name):
+                nxt = flat[flat.index(n) + 1] if flat.index(n) + 1 < len(flat) else None
+                if isinstance(nxt, (ast.Continue, ast.Return)):
+                    continue                                       # leaves the try body at once
+                changed_before_last.add(n.value.func.value.id)
+                continue
+            changed_before_last |= set(_targets_of(n))
+        # locals assigned before the last statement and read on a handler path: only harmless when the statements after the
+        # assignment cannot raise a caught class — refuse unless they are never read there
+        bad = (changed_before_last & seen) - self.x7_message_locals()
+        # a value bound in the body and only read later in the *same* body is fine even if a handler path mentions the name
+        # after rebinding it itself; keep the simple rule
+        rebound_in_handlers = {x for h in st.handlers for n in _walk_scope(h.body) for x in _targets_of(n)}
+        bad -= rebound_in_handlers
+        bad -= {h.name for h in st.handlers if h.name}             # the handler's own binding shadows the name
+        if bad:
+            raise Unsupported("a local changed inside a try block is read on the path through its handler: " + ", ".join(sorted(bad)))
     # ================================================================================================ x7 end
 
 
@@ -4598,6 +5112,8 @@ class Ctx:
         self.uses_ext = set()      # x3: lean names of functions that take the oracle
         self.recursive = {}        # x3: lean name -> id of its recursive group (functions that call each other)
         self.state_fns = set()     # x3: lean names of functions that run in the state monad
+        self.x7_mx = set()         # x7: lean names of functions that run in PyX7.MX (exception objects)
+        self.x7_clsmethods = set() # x7: lean names of classmethods (their `cls` parameter is dropped)
         self.loops = set()         # x3: lean names of functions with a `while` loop (they take fuel as well)
         self.dispatchers = {}      # name -> Lean definition text
         self.dispatcher_deps = {}
@@ -4625,6 +5141,17 @@ class Ctx:
                 self.funcs.append((lean_name, obj, None))
             except Exception as ex:   # the function is gone or renamed
                 self.funcs.append((lean_name, None, f"{type(ex).__name__}: {ex}"))
+
+    # -- x7
+    def x7_is_mx(self, f):
+        return (getattr(f, "__module__", None), getattr(f, "__qualname__", None)) in X7_MX_FUNCTIONS
+
+    def x7_is_clsmethod(self, f):
+        qn = (getattr(f, "__qualname__", "") or "").split(".")
+        if len(qn) != 2:
+            return False
+        c = getattr(importlib.import_module(f.__module__), qn[0], None)
+        return inspect.isclass(c) and isinstance(inspect.getattr_static(c, qn[1], None), classmethod)
 
     # -- classes
     def is_tracked(self, c):
@@ -4883,6 +5410,13 @@ def _translate_all(ctx):
                 ctx.imports.add(STATE_IMPORT)
                 n -= 1
                 monad = STATE_MONAD
+            if obj is not None and ctx.x7_is_mx(obj):                # x7
+                ctx.x7_mx.add(lean_name)
+                ctx.imports.add(X7_IMPORT)
+                monad = X7_MX
+            if obj is not None and ctx.x7_is_clsmethod(obj):
+                ctx.x7_clsmethods.add(lean_name)
+                n -= 1
             params = " ".join(f"_a{i}" for i in range(n))
             env = "(_env : PyRt.Env) " if lean_name in ctx.uses_env else ""
             env += "(_ext : PyRt.Oracle) " if lean_name in ctx.uses_ext else ""
@@ -5033,12 +5567,16 @@ def _assemble(ctx, defs, info, arities):
     rows = []
     for n in order:
         k = arities[n]
+        if n in ctx.x7_clsmethods:               # x7: the `cls` parameter is dropped
+            k -= 1
         if n in ctx.state_fns:                   # the tokenizer travels as the first argument and comes back with the result
             call = "PyTok.runWire (" + n + (" (PyRt.envOf e)" if n in ctx.uses_env else "") + (" (PyRt.oracleOf x)" if n in ctx.uses_ext else "") \
                 + "".join(f" a{i}" for i in range(1, k)) + ") a0"
         else:
             call = n + (" (PyRt.envOf e)" if n in ctx.uses_env else "") + (" (PyRt.oracleOf x)" if n in ctx.uses_ext else "") \
                 + "".join(f" a{i}" for i in range(k))
+        if n in ctx.x7_mx:                       # x7: an escaping exception object is answered as a value
+            call = "PyX7.runX (" + call + ")"
         pats = ", ".join((["e"] if n in ctx.uses_env else []) + (["x"] if n in ctx.uses_ext else []) + [f"a{i}" for i in range(k)])
         kk = k + (1 if n in ctx.uses_env else 0) + (1 if n in ctx.uses_ext else 0)
         rows.append(f'  ("{n}", {kk}, fun (args : List PyVal) => (match args with | [{pats}] => {call} | _ => throw "PySrcArity" : M PyVal))')
